@@ -267,6 +267,7 @@ def check_reset(ctx):
         check_init_vs_reset(ctx, cls, reset, R)
         check_reset_names(ctx, cls, reset)
         check_templates(ctx, cls, reset)
+        check_template_privacy(ctx, cls, reset)
 
 
 def param_default_subst(init):
@@ -439,6 +440,51 @@ def check_templates(ctx, cls, reset):
                       "copy.deepcopy: the next fills change the template, so the second reset() no longer restores the initial state"
                       % (cls.name, reset.name, f), detail="%s: template %s used through deepcopy" % (cls.name, f),
                       construct="template-alias:%s.%s" % (cls.name, f))
+
+
+def check_template_privacy(ctx, cls, reset):
+    """What reset() restores the initial state from (a field it reads under copy.deepcopy and never writes) must be private
+    to the element from construction on: bound in __init__ to a deep copy (or to something immutable), not to the very
+    object that __init__ also hands to the live state -- fills would change the template before reset() copies it."""
+    res = ctx.res
+    ms = methods(cls)
+    init = ms.get("__init__")
+    if init is None:
+        return
+    params = set(A.func_params(init))
+    used_as_template = set()
+    for c in A.walk_local(reset):
+        if isinstance(c, ast.Call) and res.canon(c.func) == "copy.deepcopy" and c.args and A.is_self_attr(c.args[0]):
+            used_as_template.add(c.args[0].attr)
+    written_elsewhere = set()
+    for name, fn in ms.items():
+        if name in ("__init__",):
+            continue
+        for n in A.walk_local(fn):
+            if isinstance(n, ast.Attribute) and A.is_self_attr(n) and isinstance(n.ctx, ast.Store):
+                written_elsewhere.add(n.attr)
+    for f in sorted(used_as_template - written_elsewhere):
+        for st in A.walk_local(init):
+            if not (isinstance(st, ast.Assign) and any(A.is_self_attr(t, f) for t in st.targets)):
+                continue
+            v = st.value
+            if res.is_call_to(v, "copy.deepcopy") or isinstance(v, ast.Constant):
+                ctx.ok("C09-g", st, "%s: template %s is private from construction on" % (cls.name, f))
+                continue
+            shared = False
+            if isinstance(v, ast.Name) and v.id in params:
+                for x in A.walk_local(init):
+                    if isinstance(x, ast.Name) and x.id == v.id and isinstance(x.ctx, ast.Load) and A.parent(x) is not st:
+                        par = A.parent(x)
+                        if isinstance(par, ast.Call) and (x in par.args or any(k.value is x for k in par.keywords)) \
+                                and res.canon(par.func) not in ("copy.deepcopy", "builtins.callable", "builtins.isinstance", "builtins.len"):
+                            shared = True
+                        elif isinstance(par, ast.Assign) and par.value is x:
+                            shared = True
+            ctx.check("C09-g", not shared, st, "%s.__init__ keeps `%s` as the template self.%s that %s() restores from, and hands the same "
+                      "object to the live state: fills change the template in place, so %s() after a fill restores the filled state, "
+                      "not the initial one" % (cls.name, A.src(v), f, reset.name, reset.name),
+                      detail="%s: template %s not shared with the live state" % (cls.name, f), construct="template-shared:%s.%s" % (cls.name, f))
 
 
 def check_dsum(ctx):
@@ -628,6 +674,7 @@ def check(ctx):
 
 
 VARIANTS = [
+    M("histogram-template-not-copied", "lena/structures/histogram.py", "        self._initial_bins = copy.deepcopy(bins)", "        self._initial_bins = bins", ["C09-g"]),
     M("vmc-shared-default-sums", "lena/math/elements.py", "    def __init__(self, sum_sq=None, sum_=None, corrected=True,", "    def __init__(self, sum_sq=Sum(), sum_=Sum(), corrected=True,", ["C09-h"]),
     M("storefilled-shared-list", "lena/flow/elements.py", "class StoreFilled(object):", "class StoreFilled(object):\n    def _unused(self, acc=[]):\n        return acc\n", ["C09-h"]),
     M("revert-fix-graph-scale", "lena/structures/graph.py", "        # the scale could be set from context during fill\n        self._scale = self._init_context[\"scale\"]\n", "", ["C09-a"]),
